@@ -6,7 +6,7 @@ search: random trees x two passes (available space, rounding on/off): TaffyTree 
 and vs the cache-free evaluation in exact-key mode (mismatches there classified by the event trace)."""
 from ..common import *
 from ..stages import *
-from ..engine_k import engine_correspondence
+from ..engine_k import engine_correspondence, engine_event_correspondence
 
 SCRIBBLE = ('computesize-scribble (C01): a block container stores its in-flow children\'s layouts while answering a ComputeSize query; with any memo '
             '(TaffyTree and the documented tree alike, which agree with each other) the stored layout of such a node is that of a ComputeSize '
@@ -63,7 +63,7 @@ def coq_closure(rel, seen=None):
 def drop_unrelated_translator_problems(rep):
     """The C17 development and the engine runner import nothing from coq/Gen (no translated part), so a generator of another
     property refusing a rewritten source form says nothing about C17; it is recorded, not reported."""
-    deps = coq_closure('Props/C17.v') | coq_closure('Model/EngineRun.v')
+    deps = coq_closure('Props/C17.v') | coq_closure('Model/EngineRun.v') | coq_closure('Model/EngineReplayRun.v')
     if any(d.startswith('Gen/') for d in deps):
         return
     unrelated = [b for b in rep.broken if b['kind'] == 'translator']
@@ -74,7 +74,7 @@ def drop_unrelated_translator_problems(rep):
 
 def run(rep, tier, seed, replay=None):
     res, changed = proof_stage(rep, 'C17', extra_trusted=[
-        'Model/Engine.v (TaffyView dispatch) and Model/EngineDoc.v (documented dispatch) are hand-written; tied by the dirty-flag correspondences '
+        'Model/Engine.v (TaffyView dispatch) and Model/EngineDoc.v (documented dispatch) are hand-written; tied by the dirty-flag correspondences, the event-level correspondence (real algorithms replayed, Model/EngineReplay.v) '
         'TaffyTree / custom tree vs Engine.v and by the bit-level comparison of the real trees',
         'the custom tree of harness/src/c17.rs is my reading of src/tree/traits.rs + examples/custom_tree_vec.rs, plus the display:none arm and '
         'the hidden-mode line that the examples do not show (see notes/C17.md: without that line the pattern is wrong below display:none)',
@@ -89,6 +89,7 @@ def run(rep, tier, seed, replay=None):
     if changed:
         nk = 4000
     engine_correspondence(rep, binp, seed, nk)
+    engine_event_correspondence(rep, binp, seed + 17, 600 if tier == 'quick' else 6000)
     # WF / H1 are premises of the C01/C15 theorems, not of the C17 ones (which hold for every algorithm and every tree):
     # a trace that falsifies them is recorded here, and reported by ./check C01
     hyp = [b for b in rep.broken if b['kind'] == 'interface-hypothesis']
